@@ -293,3 +293,41 @@ Proof.
   cbn zeta. split; [repeat constructor; cbn; intros; reflexivity|].
   vm_compute. split; [reflexivity|]. split; [reflexivity|]. do 6 right. now left.
 Qed.
+
+(** ** independence of clone and original (C16): both live in the same heap; whatever is done to one — any history of
+    operations, or its drop — the other answers exactly as if it were alone *)
+Lemma fam_run os : forall h F1 q l F2 fl s,
+  fam h (F1 ++ (q, l) :: F2) fl -> entries l = items s -> hcap q = cap s ->
+  exists h' q' l', hrun h q os = HOk (h', q', snd (HeapRun.lrun s os)) /\ fam h' (F1 ++ (q', l') :: F2) fl /\
+                   entries l' = items (fst (HeapRun.lrun s os)) /\ hcap q' = cap (fst (HeapRun.lrun s os)).
+Proof.
+  induction os as [|o rest IH]; intros h F1 q l F2 fl s Hf El Ec.
+  - cbn. exists h, q, l. auto.
+  - cbn [hrun HeapRun.lrun].
+    destruct (fam_step h F1 q l F2 fl s o Hf El Ec) as (h1 & q1 & l1 & E1 & Hf1 & El1 & Ec1 & _).
+    rewrite E1. cbn [hbind]. destruct (HeapRun.lstep s o) as [s1 r1]. cbn [fst snd] in *.
+    destruct (IH h1 F1 q1 l1 F2 fl s1 Hf1 El1 Ec1) as (h2 & q2 & l2 & E2 & Hf2 & El2 & Ec2).
+    rewrite E2. cbn [hbind]. destruct (HeapRun.lrun s1 rest) as [s2 rs]. cbn [fst snd] in *.
+    exists h2, q2, l2. auto.
+Qed.
+
+Theorem clone_independent h q s os1 os2 :
+  R h q s -> length (items s) <= cap s ->
+  exists h1 q1, h_clone h q = HOk (h1, q1) /\
+  exists h2 q1', hrun h1 q1 os1 = HOk (h2, q1', snd (HeapRun.lrun s os1)) /\
+  exists h3 q', hrun h2 q os2 = HOk (h3, q', snd (HeapRun.lrun s os2)) /\
+  exists h4, h_drop h3 q1' = HOk h4 /\ R h4 q' (fst (HeapRun.lrun s os2)).
+Proof.
+  intros (l & Hwf & Ht & El & Ec) Hlen.
+  assert (Hl : length l <= hcap q).
+  { rewrite Ec. rewrite <- El in Hlen. unfold entries in Hlen. now rewrite map_length in Hlen. }
+  destruct (h_clone_ok h [] q l [] (R_fam _ _ _ Hwf Ht) Hl) as (h1 & q1 & l1 & E & Hf & He & Hc & _).
+  exists h1, q1. split; [exact E|]. cbn [app] in Hf.
+  destruct (fam_run os1 h1 [] q1 l1 [(q, l)] [] s Hf) as (h2 & q1' & l1' & E1 & Hf1 & _); [congruence|congruence|].
+  exists h2, q1'. split; [exact E1|]. cbn [app] in Hf1.
+  destruct (fam_run os2 h2 [(q1', l1')] q l [] [] s Hf1 El Ec) as (h3 & q' & l' & E2 & Hf2 & El2 & Ec2).
+  exists h3, q'. split; [exact E2|]. cbn [app] in Hf2.
+  destruct (fam_drop h3 [] q1' l1' [(q', l')] Hf2) as (h4 & Ed & Hf4 & _).
+  exists h4. split; [exact Ed|]. cbn [app] in Hf4.
+  destruct (fam_R _ _ _ Hf4) as (Hwf4 & Ht4). exists l'. auto.
+Qed.
